@@ -881,3 +881,178 @@ func noSelfCacheRule(p *core.Program, r *core.Report, rule string, pkgs []string
 		}
 	}
 }
+
+// digitCountRule: a loop that counts the digits of a number in radix R by taking one digit off per
+// iteration — `for v := u; v OP K; v >>= s` (R = 1<<s) or `v /= R`, the body adding one to a counter —
+// runs while another digit is left, that is while v >= R. Written `v > R` it comes out one short for
+// every value whose leading digit is 1 followed by zeros (u = R, R*R, …): the leading digit is dropped.
+func digitCountRule(p *core.Program, r *core.Report, rule string, rels []string) {
+	in := map[string]bool{}
+	for _, k := range rels {
+		in[k] = true
+	}
+	for _, fi := range p.Funcs {
+		if fi.Decl.Body == nil || !in[core.RelPkg(fi.Pkg.PkgPath)] {
+			continue
+		}
+		info := fi.Pkg.TypesInfo
+		ast.Inspect(fi.Decl.Body, func(n ast.Node) bool {
+			f, ok := n.(*ast.ForStmt)
+			if !ok || f.Cond == nil || f.Post == nil || f.Init == nil {
+				return true
+			}
+			init, ok := f.Init.(*ast.AssignStmt)
+			if !ok || len(init.Lhs) != 1 {
+				return true
+			}
+			vid, ok := init.Lhs[0].(*ast.Ident)
+			if !ok {
+				return true
+			}
+			obj := info.ObjectOf(vid)
+			post, ok := f.Post.(*ast.AssignStmt)
+			if !ok || len(post.Lhs) != 1 || len(post.Rhs) != 1 {
+				return true
+			}
+			if pid, ok := post.Lhs[0].(*ast.Ident); !ok || info.ObjectOf(pid) != obj {
+				return true
+			}
+			k, isConst := constIntOf(info, post.Rhs[0])
+			if !isConst || k <= 0 {
+				return true
+			}
+			var radix int64
+			switch post.Tok {
+			case token.SHR_ASSIGN:
+				if k > 30 {
+					return true
+				}
+				radix = 1 << uint(k)
+			case token.QUO_ASSIGN:
+				radix = k
+			default:
+				return true
+			}
+			if radix < 2 {
+				return true
+			}
+			// the body only counts
+			if len(f.Body.List) != 1 {
+				return true
+			}
+			switch b := f.Body.List[0].(type) {
+			case *ast.IncDecStmt:
+				if b.Tok != token.INC {
+					return true
+				}
+			case *ast.AssignStmt:
+				if b.Tok != token.ADD_ASSIGN {
+					return true
+				}
+			default:
+				return true
+			}
+			be, ok := ast.Unparen(f.Cond).(*ast.BinaryExpr)
+			if !ok {
+				return true
+			}
+			cid, ok := ast.Unparen(stripConvs(info, be.X)).(*ast.Ident)
+			if !ok || info.ObjectOf(cid) != obj {
+				return true
+			}
+			bound, isConst := constIntOf(info, be.Y)
+			if !isConst {
+				return true
+			}
+			good := (be.Op == token.GEQ && bound == radix) || (be.Op == token.GTR && bound == radix-1)
+			c := core.FuncName(fi.Obj) + " digit count"
+			r.Check(good, rule, c, p.Pos(f.Pos()), "counts while v >= radix",
+				fmt.Sprintf("the digit-counting loop runs while %s (radix %d): a number that is exactly the radix, or a power of it, is counted one digit short and loses its leading digit in the text", types.ExprString(f.Cond), radix))
+			return true
+		})
+	}
+}
+
+// floorSearchRule: a table of interval starts is searched with sort.Search for the entry that contains
+// an instant, stepping back one from the answer (`n := sort.Search(…); … n-1`): the predicate has to be
+// the strict `start > t` (first entry beyond t, whose predecessor contains t). With `start >= t` an
+// instant that is exactly a start is given to the entry before it.
+func floorSearchRule(p *core.Program, r *core.Report, rule string, rels []string) {
+	in := map[string]bool{}
+	for _, k := range rels {
+		in[k] = true
+	}
+	for _, fi := range p.Funcs {
+		if fi.Decl.Body == nil || !in[core.RelPkg(fi.Pkg.PkgPath)] {
+			continue
+		}
+		info := fi.Pkg.TypesInfo
+		ast.Inspect(fi.Decl.Body, func(n ast.Node) bool {
+			as, ok := n.(*ast.AssignStmt)
+			if !ok || len(as.Lhs) != 1 || len(as.Rhs) != 1 {
+				return true
+			}
+			call, ok := ast.Unparen(as.Rhs[0]).(*ast.CallExpr)
+			if !ok || !isCallTo(info, call, "sort", "Search") || len(call.Args) != 2 {
+				return true
+			}
+			lit, ok := ast.Unparen(call.Args[1]).(*ast.FuncLit)
+			nid, ok2 := as.Lhs[0].(*ast.Ident)
+			if !ok || !ok2 || len(lit.Body.List) != 1 {
+				return true
+			}
+			rs, ok := lit.Body.List[0].(*ast.ReturnStmt)
+			if !ok || len(rs.Results) != 1 {
+				return true
+			}
+			be, ok := ast.Unparen(rs.Results[0]).(*ast.BinaryExpr)
+			if !ok {
+				return true
+			}
+			// the answer is stepped back by one somewhere in the function
+			nobj := info.ObjectOf(nid)
+			stepsBack := false
+			ast.Inspect(fi.Decl.Body, func(m ast.Node) bool {
+				if b, ok := m.(*ast.BinaryExpr); ok && b.Op == token.SUB {
+					if id, ok := ast.Unparen(b.X).(*ast.Ident); ok && info.ObjectOf(id) == nobj {
+						if k, isC := constIntOf(info, b.Y); isC && k == 1 {
+							stepsBack = true
+						}
+					}
+				}
+				return true
+			})
+			if !stepsBack {
+				return true
+			}
+			// which side is the table entry (indexed by the literal's parameter)?
+			var iobj types.Object
+			if lit.Type.Params != nil && len(lit.Type.Params.List) == 1 && len(lit.Type.Params.List[0].Names) == 1 {
+				iobj = info.Defs[lit.Type.Params.List[0].Names[0]]
+			}
+			usesI := func(e ast.Expr) bool {
+				found := false
+				ast.Inspect(e, func(m ast.Node) bool {
+					if id, ok := m.(*ast.Ident); ok && iobj != nil && info.ObjectOf(id) == iobj {
+						found = true
+					}
+					return !found
+				})
+				return found
+			}
+			strict := false
+			switch {
+			case usesI(be.X) && !usesI(be.Y):
+				strict = be.Op == token.GTR
+			case usesI(be.Y) && !usesI(be.X):
+				strict = be.Op == token.LSS
+			default:
+				return true
+			}
+			c := core.FuncName(fi.Obj) + " containing-entry search"
+			r.Check(strict, rule, c, p.Pos(call.Pos()), "first entry beyond the instant, then one back",
+				"the search finds the first entry whose start is >= the instant and steps back one: an instant that is exactly the start of an entry is given to the entry before it (the previous day's date and weekday at midnight)")
+			return true
+		})
+	}
+}
